@@ -26,8 +26,8 @@ pub fn def() -> CheckDef {
     CheckDef {
         id: "C09",
         level: "fault_enumeration",
-        runs_quick: 25_000,
-        runs_thorough: 500_000,
+        runs_quick: 100_000,
+        runs_thorough: 4_000_000,
         rule: "crash/restart injection: for every sampled (type, block size, cipher, IV, message <= 24 blocks (buffered CFB: <= 4 blocks of bytes), two schedules, two width policies) ALL cut points are enumerated; at each the instance exports its IV state and is dropped, a fresh instance is built from the exported value alone and continues under an independent schedule. evaluations = scenarios; crash points are counted in reach_probes.cut_points. distinct = distinct (type, block size, cipher, policies, schedules, message length); non-trivial = message of >= 2 units so that a cut separates data from data",
         required_probes: &["cut_points", "start_far", "buf_restart_mid_block", "restart_after_par_group", "ctr64", "ctr128le", "ofb_core_non_aes", "double_restart", "ctr_next_counter_block_seen", "partner_direction_compared"],
         r#gen,
